@@ -85,6 +85,10 @@ fn main() {
             let file = args.get(2).cloned().unwrap_or_else(|| usage());
             std::process::exit(minimise::replay_file(&file));
         }
+        "show" => {
+            let file = args.get(2).cloned().unwrap_or_else(|| usage());
+            minimise::show_main(&file);
+        }
         "eval-case" => {
             // evaluate one case in this process (used by replay / minimise for crash classes)
             let file = args.get(2).cloned().unwrap_or_else(|| usage());
